@@ -16,8 +16,74 @@ import (
 	"strings"
 	"unicode"
 
+	"github.com/goghcrow/yae/fun"
 	"github.com/goghcrow/yae/parser/oper"
+	"github.com/goghcrow/yae/types"
+	"github.com/goghcrow/yae/val"
+	sqlfun "github.com/goghcrow/yae/ext/sql"
 )
+
+// coqTy renders an implementation type as a Coq term of Model.Ty.ty.
+func coqTy(t *types.Type) string {
+	switch t.Kind {
+	case types.KTop:
+		return "TTop"
+	case types.KBot:
+		return "TBot"
+	case types.KNum:
+		return "TNum"
+	case types.KStr:
+		return "TStr"
+	case types.KBool:
+		return "TBool"
+	case types.KTime:
+		return "TTime"
+	case types.KTyVar:
+		return "(TVar " + coqStr(t.TyVar().Name) + ")"
+	case types.KList:
+		return "(TList " + coqTy(t.List().El) + ")"
+	case types.KMaybe:
+		return "(TMaybe " + coqTy(t.Maybe().Elem) + ")"
+	case types.KMap:
+		return "(TMap " + coqTy(t.Map().Key) + " " + coqTy(t.Map().Val) + ")"
+	case types.KObj:
+		var fs []string
+		for _, f := range t.Obj().Fields {
+			fs = append(fs, "("+coqStr(f.Name)+", "+coqTy(f.Val)+")")
+		}
+		return "(TObj [" + strings.Join(fs, "; ") + "])"
+	case types.KFun:
+		return "(TFun " + coqStr(t.Fun().Name) + " " + coqTys(t.Fun().Param) + " " + coqTy(t.Fun().Return) + ")"
+	default:
+		return "(TTuple " + coqTys(t.Tuple().Val) + ")"
+	}
+}
+
+func coqTys(ts []*types.Type) string {
+	var xs []string
+	for _, t := range ts {
+		xs = append(xs, coqTy(t))
+	}
+	return "[" + strings.Join(xs, "; ") + "]"
+}
+
+func sigTable(name string, fs []*val.Val) {
+	pf("(* (name, parameter types, result type, lazy) in registration order *)\n")
+	pf("Definition %s : list (string * list ty * ty * bool) := [\n", name)
+	for i, f := range fs {
+		ft := f.Type.Fun()
+		sep := ";"
+		if i == len(fs)-1 {
+			sep = ""
+		}
+		lazy := "false"
+		if f.Fun().Lazy {
+			lazy = "true"
+		}
+		pf("  (%s, %s, %s, %s)%s\n", coqStr(ft.Name), coqTys(ft.Param), coqTy(ft.Return), lazy, sep)
+	}
+	pf("].\n\n")
+}
 
 var repo string
 var out bytes.Buffer
@@ -169,7 +235,7 @@ func lexerRules() {
 func main() {
 	repo = os.Args[1]
 	pf("(* GENERATED by harness/cmd/gentables from the working tree of /repo on every check; do not edit. *)\n")
-	pf("From Coq Require Import List String NArith ZArith.\nImport ListNotations.\nOpen Scope string_scope.\n\n")
+	pf("From Coq Require Import List String NArith ZArith.\nFrom Yae Require Import Model.Ty.\nImport ListNotations.\nOpen Scope string_scope.\n\n")
 
 	// ---- unicode tables of the Go toolchain in use (regexp \\p{L}, unicode.IsSpace) ----
 	rangeTable("letter_ranges", unicode.L)
@@ -207,6 +273,10 @@ func main() {
 		int(oper.BP_NONE*8), int(oper.BP_LEFT_BRACE*8), int(oper.BP_COND*8), int(oper.BP_CALL*8), int(oper.BP_MEMBER*8), int(oper.BP_PREFIX*8), int(oper.BP_POSTFIX*8))
 
 	lexerRules()
+
+	// ---- built-in function signatures (fun.BuiltIn(), ext/sql.BuiltIn()) ----
+	sigTable("builtin_sigs", fun.BuiltIn())
+	sigTable("sql_sigs", sqlfun.BuiltIn())
 
 	// reserved identifiers (parser/lexer/reserved.go)
 	{
